@@ -288,11 +288,22 @@ def dispatch(E, c, args):
                 q = z3.If(z3.Or(z3.And(x >= 0, y > 0), z3.And(x <= 0, y < 0)), z3.Abs(x) / z3.Abs(y), -(z3.Abs(x) / z3.Abs(y)))
                 return VBig(q if tc[2] == "div" else x - q * y)
     # ------------------------------------------------------------ num-bigint
-    if "num_bigint::Big" in c or "num_bigint::Sign" in c:
+    if "num_bigint::Big" in c or "num_bigint::Sign" in c or re.match(r"^(BigUint|num_bigint::BigUint)::", c):
         meth = re.sub(r"::<.*$", "", c.split("::")[-1]) if not tc else tc[2]
         a = deref(E, args[0]) if args else None
         if meth in ("from",) and isinstance(a, VInt):
             return VBig(a.t)
+        if meth == "to_bytes_be":
+            if isinstance(a, VBig) or (isinstance(a, VStruct) and a.fields and isinstance(a.fields[0], VBig)):
+                x = big_of(E, a)
+                by = VOpaque("be_bytes", [], z3.Function("be_bytes_of", z3.IntSort(), E.U)(z3.If(x >= 0, x, -x)))
+                if "BigUint::" in c:
+                    return by
+                i = E.choose([x < 0, x == 0, x > 0], "sign")
+                return VStruct("()", [VEnum("Sign", ["Minus", "NoSign", "Plus"][i], []), by])
+        if meth == "to_biguint":
+            x = big_of(E, a)
+            return some(VBig(x)) if E.choose([x >= 0, x < 0], "to_biguint") == 0 else VEnum("Option", "None", [])
         if meth == "from_bytes_be":
             # magnitude of an opaque byte string: an arbitrary natural number; the sign argument decides the sign
             mag = z3.FreshConst(z3.IntSort(), "magnitude")
@@ -547,6 +558,15 @@ def val_eq(E, a, b):
         if len(a.items) != len(b.items):
             return z3.BoolVal(False)
         return z3.And([val_eq(E, x, y) for x, y in zip(a.items, b.items)]) if a.items else z3.BoolVal(True)
+    from engine import VDigits as _VD
+    if isinstance(a, _VD) or isinstance(b, _VD):
+        d, q = (a, b) if isinstance(a, _VD) else (b, a)
+        if isinstance(q, VSeq) and all(isinstance(deref(E, x), VInt) for x in q.items):
+            # normalised little-endian base-2^64 digits (no leading zero digit) of the magnitude
+            ds = [deref(E, x).t for x in q.items]
+            if not ds:
+                return d.mag == 0
+            return z3.And(ds[-1] != 0, d.mag == z3.Sum([ds[i] * (1 << (64 * i)) for i in range(len(ds))]))
     if isinstance(a, VOpaque) or isinstance(b, VOpaque):
         return E.as_u(a) == E.as_u(b)
     raise Unsupported("equality of %r and %r" % (a, b))
